@@ -92,7 +92,7 @@ theorem good_iter {t : Task} {c : Chain} (hc : c.WF) (f : Option Pos) (s : St)
     have := hdf.le
     have := clip_le t target0
     rcases load_chain hc t s1 s2 lh (ln + 1) d lr hsc1 hb hcc hcb hd1 (by omega) (by omega) (by omega) hl
-      with h | h | ⟨k, hk1, hk2, hk3, ⟨h, hne⟩ | ⟨h, _⟩⟩
+      with h | ⟨h, _⟩ | ⟨k, hk1, hk2, hk3, ⟨h, hne⟩ | ⟨h, _⟩⟩
     · subst h; rcases hcase with ⟨h, _⟩ | ⟨_, h, _⟩ <;> cases h
     · subst h; rcases hcase with ⟨h, _⟩ | ⟨_, h, _⟩ <;> cases h
     · exact absurd hlh hne
